@@ -85,35 +85,73 @@ def settings_snapshot():
     }
 
 
-def canaries():
-    """a fixed set of operations whose results must not depend on history"""
+def canaries(start=0):
+    """a fixed set of operations whose results must not depend on history - nor on each other: they are run in
+    rotated order (beginning with number `start`), so that every one of them is at some time the FIRST call after
+    the history, and the results are reported by number"""
     cp = _cp()
-    out = []
+
+    def quiet(f):
+        def g():
+            cp.log.raiseExceptions = False
+            return f()
+        return g
+
+    def loud(kind, bad):
+        def g():
+            cp.log.raiseExceptions = True
+            try:
+                (cp.stylesheets.MediaList if kind == 'm' else cp.css.Selector)(bad)
+                return 'accepted'
+            except xml.dom.DOMException as e:
+                return type(e).__name__
+        return g
+
+    def sheet():
+        sh = cp.CSSParser(fetcher=fetcher_ok).parseString(GOOD_SHEET, href='http://h/s.css')
+        return [sh.cssText.decode('utf-8'),
+                [s.specificity for r in sh.cssRules if r.type == r.STYLE_RULE for s in r.selectorList]]
+
+    def medium():
+        ml = cp.stylesheets.MediaList('screen')
+        r = ml.appendMedium('print')
+        return [r, ml.mediaText, ml.length]
+
+    def query():
+        mq = cp.stylesheets.MediaQuery('print')
+        mq2 = cp.stylesheets.MediaQuery('tv')
+        mq2.mediaText = 'screen and (color)'
+        return [mq.mediaText, mq.mediaType, mq.wellformed, mq2.mediaText, mq2.wellformed]
+
+    def item():
+        ml = cp.stylesheets.MediaList('screen, tv')
+        ml[0] = 'print'
+        return ml.mediaText
+
+    thunks = [quiet(sheet),
+              quiet(lambda: cp.CSSParser().parseStyle('top: 0; color: rgb(1,2,3); margin: 0 auto !important').cssText),
+              quiet(lambda: cp.stylesheets.MediaList('print, screen and (min-width: 1px)').mediaText),
+              quiet(lambda: cp.css.Selector('a > b:not(.c)[d="e"]::after').selectorText),
+              quiet(lambda: cp.css.PropertyValue('1px solid rgba(0, 0, 0, .5)').cssText),
+              quiet(lambda: cp.css.CSSStyleSheet().cssText.decode()),
+              quiet(lambda: [t[:2] for t in cp.tokenize2.Tokenizer().tokenize('a{b:c} /*d*/ @e "f" url(g) 1.5em')]),
+              quiet(medium), quiet(query), quiet(item),
+              quiet(lambda: cp.css.SelectorList('a, b.c').selectorText),
+              quiet(lambda: cp.css.CSSStyleDeclaration('left: 0; top: 1px').cssText),
+              quiet(lambda: cp.css.Property('color', 'red').cssText),
+              quiet(lambda: cp.css.CSSImportRule(href='x.css', mediaText='print').cssText),
+              quiet(lambda: cp.css.CSSMediaRule(mediaText='print').media.mediaText)]
+    for bad in ('tv }', 'a, ,', 'top:'):
+        thunks += [loud('m', bad), loud('s', bad)]
+    out = [None] * len(thunks)
     old = cp.log.raiseExceptions
     try:
-        cp.log.raiseExceptions = False
-        p = cp.CSSParser(fetcher=fetcher_ok)
-        sh = p.parseString(GOOD_SHEET, href='http://h/s.css')
-        out.append(sh.cssText.decode('utf-8'))
-        out.append([s.specificity for r in sh.cssRules if r.type == r.STYLE_RULE for s in r.selectorList])
-        out.append(p.parseStyle('top: 0; color: rgb(1,2,3); margin: 0 auto !important').cssText)
-        out.append(cp.stylesheets.MediaList('print, screen and (min-width: 1px)').mediaText)
-        out.append(cp.css.Selector('a > b:not(.c)[d="e"]::after').selectorText)
-        out.append(cp.css.PropertyValue('1px solid rgba(0, 0, 0, .5)').cssText)
-        out.append(cp.css.CSSStyleSheet().cssText.decode())
-        out.append([t[:2] for t in cp.tokenize2.Tokenizer().tokenize('a{b:c} /*d*/ @e "f" url(g) 1.5em')])
-        cp.log.raiseExceptions = True
-        for bad in ('tv }', 'a, ,', 'top:'):
+        for k in range(len(thunks)):
+            i = (start + k) % len(thunks)
             try:
-                cp.stylesheets.MediaList(bad)
-                out.append('accepted')
-            except xml.dom.DOMException as e:
-                out.append(type(e).__name__)
-            try:
-                cp.css.Selector(bad)
-                out.append('accepted')
-            except xml.dom.DOMException as e:
-                out.append(type(e).__name__)
+                out[i] = thunks[i]()
+            except Exception as e:
+                out[i] = 'RAISED %s: %s' % (type(e).__name__, str(e)[:80])
     finally:
         cp.log.raiseExceptions = old
     return json.dumps(out, default=str)
@@ -132,7 +170,7 @@ def api_call(rnd, pool=()):
     cp = _cp()
     k = rnd.choice(['parseString', 'parseString', 'parseStyle', 'parser-reuse', 'old-parser', 'old-parser', 'medialist', 'mediaquery', 'selector',
                     'selectorlist', 'style-text', 'property', 'sheet-text', 'rule-text', 'append-medium', 'append-selector',
-                    'serialize-prefs', 'csscombine', 'value', 'import-raise', 'set-raise', 'set-serializer', 'import-media', 'parse-media', 'global-prefs', 'global-prefs'])
+                    'serialize-prefs', 'csscombine', 'value', 'leftover', 'leftover', 'import-raise', 'set-raise', 'set-serializer', 'import-media', 'parse-media', 'global-prefs', 'global-prefs'])
     t = rnd.choice(list(TEXTS))
     s = rnd.choice(SETTER_TEXTS) if rnd.random() < 0.5 else gen_text(rnd)
     raising = rnd.random() < 0.5
@@ -221,6 +259,16 @@ def api_call(rnd, pool=()):
                 lambda: csscombine(cssText=TEXTS['good'], href='http://h/s.css', targetencoding=enc, minify=mini, resolveVariables=resv))
     if k == 'value':
         return ('PropertyValue(%r)' % s, lambda: cp.css.PropertyValue(s))
+    if k == 'leftover':
+        # accepted calls whose text goes on after the part that was asked for (a value followed by ';', a margin box
+        # followed by '}'): whatever the reader keeps of the rest must not reach the next call
+        j = rnd.randrange(6)
+        return [("Property('color', 'red;')", lambda: cp.css.Property('color', 'red;')),
+                ("setProperty('left', '1px;')", lambda: cp.css.CSSStyleDeclaration().setProperty('left', '1px;')),
+                ("PropertyValue('1px; 2px')", lambda: cp.css.PropertyValue('1px; 2px')),
+                ("CSSVariablesDeclaration('a: 1px; b: 2px;')", lambda: cp.css.CSSVariablesDeclaration('a: 1px; b: 2px;')),
+                ("parseString('@page { @top-left { } }')", lambda: cp.parseString('@page { @top-left { } }')),
+                ("MarginRule.cssText = '@top-left { } }'", lambda: setattr(cp.css.MarginRule(), 'cssText', '@top-left { left: 0 } }'))][j]
     if k == 'import-raise':
         return ('parse with raising fetcher', lambda: cp.CSSParser(fetcher=fetcher_raise).parseString('@import "x.css";'))
     if k == 'set-raise':
@@ -261,7 +309,7 @@ def run_sequence(seed, length, ref):
             diff = [k for k in now if now[k] != expect[k]]
             return 'after %r the process-wide %s differ from what the caller last set: %r, expected %r' % (
                 history, diff, {k: now[k] for k in diff}, {k: expect[k] for k in diff})
-    got = canaries()
+    got = canaries(start=rnd.randrange(64))
     if got != ref:
         a, b = json.loads(got), json.loads(ref)
         idx = [i for i, (x, y) in enumerate(zip(a, b)) if x != y][:1]
